@@ -22,8 +22,9 @@ RULE = ("tables: every composition table with 1 chromosome of length <=7 and 2 c
         "the corpus (longer/shorter last bin, one-bin chromosomes, 3 chromosomes) and seeded random tables (families uniform/short last/"
         "LONGER last/one-bin/variable, widths up to 2^30); regions: every (chrom, s, e) with 0<=s<=e<=L on the small tables, edge+-1 "
         "positions on the large ones, each as tuple and (rotating) as UCSC string / bare name / open end / numpy ints, plus malformed "
-        "regions (-1, L+1, e<s, unknown name); every region goes through Cooler.extent+offset, a seeded share also through bins/pixels/"
-        "matrix fetch (1 and 2 regions), GenomeSegmentation.fetch and bedslice. One evaluation = one API call compared with the model. "
+        "regions (-1, L+1, e<s, unknown name); every region goes through Cooler.extent, a seeded share also through offset, bins().fetch (with an extra bin column), "
+        "pixels().fetch (plain / join=True), matrix(balance=False).fetch dense / sparse / as_pixels with 1 and 2 regions, GenomeSegmentation.fetch and bedslice; "
+        "corpus tables alternate dense and very sparse pixel sets (chromosomes without pixels). One evaluation = one API call compared with the model. "
         "non-trivial = valid region that is not the whole chromosome, on a chromosome with >=2 bins or a table with >=2 chromosomes; "
         "distinct by (table, region, spelling, api)")
 TRUSTED = ["h5py dataset slicing and pandas iloc are observed through the public fetch API, not modelled separately",
@@ -209,11 +210,14 @@ class Table:
         os.makedirs(d, exist_ok=True)
         self.uri = os.path.join(d, f"t{k}.cool")
         self.df = table_from_blocks(self.blocks)
+        self.df["tag"] = np.arange(len(self.df), dtype=np.int64) * 7 + 1       # an extra bin column must come back with its own rows
         pdf = pd.DataFrame({"bin1_id": [p[0] for p in px], "bin2_id": [p[1] for p in px], "count": [p[2] for p in px]})
         cooler.create_cooler(self.uri, self.df, pdf)
         self.clr = cooler.Cooler(self.uri)
-        self.gs = GenomeSegmentation(self.clr.chromsizes, self.df)
-        self.grouped = self.df.groupby("chrom", observed=True)
+        self.gs = GenomeSegmentation(self.clr.chromsizes, self.df[["chrom", "start", "end"]])
+        self.grouped = self.df[["chrom", "start", "end"]].groupby("chrom", observed=True)
+        fl = [b for blk in self.blocks for b in blk]
+        self.binid = {(self.names[c], s): k for k, (c, s, e) in enumerate(fl)}
 
     def close(self):
         os.remove(self.uri)
@@ -223,7 +227,9 @@ class Table:
 
 
 def run_api(T, api, reg, reg2=None):
+    """api may carry a call form after a colon: matrix:sparse, matrix2:sparse, pixels:join"""
     from cooler.util import bedslice
+    api, _, form = api.partition(":")
     r = spell(T.names, reg)
     if api == "extent":
         st, v = call(lambda: T.clr.extent(r))
@@ -233,20 +239,39 @@ def run_api(T, api, reg, reg2=None):
         return st if st != "ok" else int(v)
     if api == "bins":
         st, v = call(lambda: T.clr.bins().fetch(r))
-        return st if st != "ok" else T.bins_rows(v)
+        if st != "ok":
+            return st
+        if "tag" not in v.columns or any(int(tg) != 7 * int(i) + 1 for i, tg in zip(v.index, v["tag"])):
+            return "extra bin column does not belong to the returned rows"
+        return T.bins_rows(v)
     if api == "pixels":
+        if form == "join":
+            st, v = call(lambda: T.clr.pixels(join=True).fetch(r))
+            if st != "ok":
+                return st
+            return [[T.binid[(str(c1), int(s1))], T.binid[(str(c2), int(s2))], int(c)]
+                    for c1, s1, c2, s2, c in zip(v["chrom1"], v["start1"], v["chrom2"], v["start2"], v["count"])]
         st, v = call(lambda: T.clr.pixels().fetch(r))
         return st if st != "ok" else [[int(a), int(b_), int(c)] for a, b_, c in zip(v["bin1_id"], v["bin2_id"], v["count"])]
     if api in ("matrix", "matrix2"):
+        sel = T.clr.matrix(balance=False, sparse=(form == "sparse"))
         if reg2 is None:
-            st, v = call(lambda: T.clr.matrix(balance=False).fetch(r))
+            st, v = call(lambda: sel.fetch(r))
         else:
             r2 = spell(T.names, reg2)
-            st, v = call(lambda: T.clr.matrix(balance=False).fetch(r, r2))
+            st, v = call(lambda: sel.fetch(r, r2))
         if st != "ok":
             return st
-        a = np.asarray(v)
+        a = np.asarray(v.toarray() if form == "sparse" else v)
         return a.astype(np.int64).tolist() + [list(a.shape)]
+    if api in ("mpixels", "mpixels2"):
+        sel = T.clr.matrix(balance=False, as_pixels=True)
+        if reg2 is None:
+            st, v = call(lambda: sel.fetch(r))
+        else:
+            r2 = spell(T.names, reg2)
+            st, v = call(lambda: sel.fetch(r, r2))
+        return st if st != "ok" else [[int(a), int(b_), int(c)] for a, b_, c in zip(v["bin1_id"], v["bin2_id"], v["count"])]
     if api == "segfetch":
         st, v = call(lambda: T.gs.fetch(r))
         return st if st != "ok" else T.bins_rows(v)
@@ -315,7 +340,20 @@ def unopt(x):
 # ------------------------------------------------------------------ oracle per call
 def oracle_call(blocks, px, full, api, reg, reg2, got):
     """True = the property holds for this answer of the implementation (None-resolving regions are outside the quantifier)"""
+    api = api.partition(":")[0]
     r = resolve(blocks, reg)
+    if api == "mpixels2":
+        r2 = resolve(blocks, reg2)
+        if r is None or r2 is None:
+            return True
+        if isinstance(got, str):
+            return False
+        if r[1] < r[2] and r2[1] < r2[2]:
+            s1, s2 = set(overlap_ids(blocks, *r)), set(overlap_ids(blocks, *r2))
+            return got == [[a, b_, v] for a, b_, v in px if a in s1 and b_ in s2]
+        lim1 = 1 if r[1] == r[2] else len(overlap_ids(blocks, *r))
+        lim2 = 1 if r2[1] == r2[2] else len(overlap_ids(blocks, *r2))
+        return len(got) <= lim1 * lim2 and all([a, b_, v] in [list(p) for p in px] for a, b_, v in got)
     if api == "matrix2":
         r2 = resolve(blocks, reg2)
         if r is None or r2 is None:
@@ -348,6 +386,11 @@ def oracle_call(blocks, px, full, api, reg, reg2, got):
         rows = sorted({a for a, _, _ in got})
         return len(rows) <= 1 and all(a in containing_ids(blocks, c, s) for a in rows) and \
             (not rows or got == [[a, b_, v] for a, b_, v in px if a == rows[0]])
+    if api == "mpixels":
+        if s < e:
+            sel = set(overlap_ids(blocks, c, s, e))
+            return got == [[a, b_, v] for a, b_, v in px if a in sel and b_ in sel]
+        return len(got) <= 1 and all(a == b_ and a in containing_ids(blocks, c, s) and [a, b_, v] in [list(p) for p in px] for a, b_, v in got)
     if api == "matrix":
         arr = np.array(got[:-1], dtype=np.int64).reshape(got[-1])
         if s < e:
@@ -358,7 +401,14 @@ def oracle_call(blocks, px, full, api, reg, reg2, got):
     raise AssertionError(api)
 
 
-FETCH_APIS = ["offset", "bins", "pixels", "matrix", "segfetch", "bedslice"]
+FETCH_APIS = ["offset", "bins", "pixels", "matrix", "mpixels", "segfetch", "bedslice"]
+FORMS = {"pixels": ["", ":join"], "matrix": ["", ":sparse"]}
+PAIR_APIS = ["matrix2", "matrix2:sparse", "mpixels2"]
+
+
+def fetch_calls(i):
+    """the fetch APIs for region number i, with a rotating call form (dense/sparse matrix, plain/joined pixels)"""
+    return [api + FORMS.get(api, [""])[i % len(FORMS.get(api, [""]))] for api in FETCH_APIS]
 
 
 # ------------------------------------------------------------------ run
@@ -368,7 +418,7 @@ def run(ctx):
     thorough = ctx.tier == "thorough"
     rng = ctx.rng
     jobs = []   # (widths, regs, share of regions that also go through the fetch APIs, label)
-    share = 0.3 if thorough else 0.2
+    share = 0.3 if thorough else 0.16
     for widths in CORPUS:
         blocks = blocks_from_widths(widths)
         small = max(b[-1][2] for b in blocks) <= 12
@@ -404,19 +454,20 @@ def run(ctx):
     for widths, regs, sh, label in jobs:
         n = sum(len(w) for w in widths)
         pxseed = rng.randrange(1 << 30)
-        px = make_px(random.Random(pxseed), n, 0.6 if n <= 12 else 0.25)
+        dense = (0.6 if n <= 12 else 0.25) if (label != "corpus" or len(plan) % 2 == 0) else 0.08   # sparse: chromosomes without pixels
+        px = make_px(random.Random(pxseed), n, dense)
         fidx = [i for i in range(len(regs)) if rng.random() < sh]
         pairs = []
         for i in fidx:
             if rng.random() < 0.5:
                 pairs.append((regs[i], regs[rng.randrange(len(regs))]))
         calls = [("extent", reg, None) for reg in regs]
-        calls += [(api, regs[i], None) for i in fidx for api in FETCH_APIS]
-        calls += [("matrix2", ra, rb) for ra, rb in pairs]
-        plan.append((widths, pxseed, px, regs, fidx, pairs, label, calls))
+        calls += [(api, regs[i], None) for i in fidx for api in fetch_calls(i)]
+        calls += [(PAIR_APIS[k % 3], ra, rb) for k, (ra, rb) in enumerate(pairs)]
+        plan.append((widths, pxseed, px, regs, fidx, pairs, label, calls, dense))
 
-    exprs = [model_expr(blocks_from_widths(w), px, regs, fidx, pairs) for (w, _s, px, regs, fidx, pairs, _l, _c) in plan]
-    wjobs = [(str(ctx.tmp), k, w, px, calls) for k, (w, _s, px, _r, _f, _p, _l, calls) in enumerate(plan)]
+    exprs = [model_expr(blocks_from_widths(w), px, regs, fidx, pairs) for (w, _s, px, regs, fidx, pairs, _l, _c, _d) in plan]
+    wjobs = [(str(ctx.tmp), k, w, px, calls) for k, (w, _s, px, _r, _f, _p, _l, calls, _d) in enumerate(plan)]
     pool = mp.get_context("fork").Pool(4)
     try:
         async_res = pool.map_async(table_worker, wjobs, chunksize=4)
@@ -426,11 +477,11 @@ def run(ctx):
         pool.terminate()
 
     counts = {"tables": len(plan), "regions": 0, "api_calls": 0, "fixed_tables": 0, "variable_tables": 0}
-    for (widths, pxseed, px, regs, fidx, pairs, label, calls), mo, (status, fixed, got_all) in zip(plan, model, impl):
+    for (widths, pxseed, px, regs, fidx, pairs, label, calls, dense), mo, (status, fixed, got_all) in zip(plan, model, impl):
         mvalid, mext_all, mfetch, mpairs = mo
         blocks = blocks_from_widths(widths)
         n = sum(len(w) for w in widths)
-        tcase = {"widths": widths, "px_seed": pxseed}
+        tcase = {"widths": widths, "px_seed": pxseed, "px_dense": dense}
         if not mvalid:
             ctx.disagree("generator produced a table the model calls invalid", tcase, True, False)
         if status != "ok":
@@ -448,15 +499,16 @@ def run(ctx):
         mp2 = {k: unopt(m) for k, m in enumerate(mpairs)}
         pair_no = 0
         pos = 0
-        order = [(i, "extent") for i in range(len(regs))] + [(i, api) for i in fidx for api in FETCH_APIS]
-        for (i, api), got in zip(order, got_all):
+        order = [(i, "extent") for i in range(len(regs))] + [(i, api) for i in fidx for api in fetch_calls(i)]
+        for (i, fullapi), got in zip(order, got_all):
+            api = fullapi.partition(":")[0]
             reg = regs[i]
             pos += 1
             r = resolve(blocks, reg)
             nontriv = r is not None and (r[1] > 0 or r[2] < blocks[r[0]][-1][2]) and (multi or len(blocks[r[0]]) >= 2)
             kind = label + (":fixed" if fixed else ":variable") + (":malformed" if r is None else (":empty" if r[1] == r[2] else ""))
-            case = dict(tcase, api=api, region=list(reg))
-            ctx.case(case, nontrivial=nontriv, kind=api + ":" + kind)
+            case = dict(tcase, api=fullapi, region=list(reg))
+            ctx.case(case, nontrivial=nontriv, kind=fullapi + ":" + kind)
             counts["api_calls"] += 1
             me = mext[i]
             if me is None:
@@ -472,6 +524,8 @@ def run(ctx):
             elif api == "matrix":
                 sub = full[me[0]:me[1], me[0]:me[1]]
                 exp = sub.tolist() + [list(sub.shape)]
+            elif api == "mpixels":
+                exp = [[a, b_, v] for a, b_, v in px if me[0] <= a < me[1] and me[0] <= b_ < me[1]]
             else:
                 off = sum(len(b) for b in blocks[:reg[0]])
                 where = {tuple(b): off + j for j, b in enumerate(blocks[reg[0]])}
@@ -480,18 +534,21 @@ def run(ctx):
             if not oracle_call(blocks, px, full, api, reg, None, got):
                 ctx.fail(case, {"got": got if len(str(got)) < 600 else str(got)[:600], "resolved_region": list(r)}, None)
         for k, ((ra, rb), got) in enumerate(zip(pairs, got_all[pos:])):
-            case = dict(tcase, api="matrix2", region=list(ra), region2=list(rb))
+            papi = PAIR_APIS[k % 3]
+            case = dict(tcase, api=papi, region=list(ra), region2=list(rb))
             r1, r2 = resolve(blocks, ra), resolve(blocks, rb)
-            ctx.case(case, nontrivial=r1 is not None and r2 is not None and multi, kind="matrix2:" + label)
+            ctx.case(case, nontrivial=r1 is not None and r2 is not None and multi, kind=papi + ":" + label)
             counts["api_calls"] += 1
             mb = mp2[k]
             if mb is None:
                 exp = "ValueError"
+            elif papi == "mpixels2":
+                exp = [[a, b_, v] for a, b_, v in px if mb[0] <= a < mb[1] and mb[2] <= b_ < mb[3]]
             else:
                 sub = full[mb[0]:mb[1], mb[2]:mb[3]]
                 exp = sub.tolist() + [list(sub.shape)]
-            ctx.compare("matrix2", case, got, exp)
-            if not oracle_call(blocks, px, full, "matrix2", ra, rb, got):
+            ctx.compare(papi, case, got, exp)
+            if not oracle_call(blocks, px, full, papi, ra, rb, got):
                 ctx.fail(case, {"got": str(got)[:600]}, None)
     ctx.exhaustive = True
     ctx.extra["scopes"] = counts
@@ -501,7 +558,7 @@ def replay(ctx, case):
     import random
     widths = case["widths"]
     n = sum(len(w) for w in widths)
-    px = make_px(random.Random(case["px_seed"]), n, 0.6 if n <= 12 else 0.25)
+    px = make_px(random.Random(case["px_seed"]), n, case.get("px_dense", 0.6 if n <= 12 else 0.25))
     blocks = blocks_from_widths(widths)
     if "api" not in case:
         st, _, _ = table_worker((str(ctx.tmp), 0, widths, px, []))
